@@ -312,6 +312,17 @@ seq(prop="C17", lean_targets=["TransportVerif.Props.C17"], pkg="netctx", run="^T
               dict(name="packet", run="^TestVerifCtxPacket$", overlay_fn=_yield_k("netctx/packetconn.go", ["ReadFromContext", "WriteToContext"], _CTX_KINDS)),
               dict(name="connctx", pkg="connctx", run="^TestVerifCtx$", overlay_fn=_yield_k("connctx/connctx.go", ["ReadContext", "WriteContext"], _CTX_KINDS))],
     nontrivial=["cancel-during-call", "call-transfers-after-cancel", "select-both-ready-ctx", "select-both-ready-done", "deadline-restored", "returns-data-despite-cancel", "cancelled-before", "wait-parks", "recv-parks"],
-    rule="TODO", design_ref="DESIGN.md 7.17", technique="TODO", level_text="TODO", level_note="TODO", trusted=LEAN_TB, assumptions=[])
+    rule="controlled schedules of one to four consecutive context-aware reads and writes (stream wrapper, packet wrapper, deprecated connctx wrapper) over a scripted wrapped connection: "
+         "contexts cancelled before the call (25%), or at a random instant between any two grants of the caller and the watcher goroutine (yield points: the watcher's select and <-done, the "
+         "caller's wg.Wait(), every look of the wrapped blocking call at its state), data becoming available at random instants; Go's free choice when both select cases are ready is fed "
+         "to the model as observed; after every grant both goroutines' positions, the wrapped connection's deadline and bytes, and the result are compared with the model; every completed "
+         "operation is judged on the implementation's own report (bytes reported = bytes moved, stream order, context error only after cancellation, no raw timeout, no leftover deadline), "
+         "and a cancelled operation must finish once everything runnable has run. non-trivial = cancellation during the call, transfer after cancellation, both select cases ready (either "
+         "choice), deadline restored, data returned despite cancellation, context cancelled before the call, caller or watcher parked; distinct = hash of the schedule",
+    design_ref="DESIGN.md 7.17", technique="Lean 4 proof: reachability invariant of the caller/watcher transition system over every schedule; session theorems by induction over operations; schedules replayed on the real wrappers under the controlled scheduler",
+    level_text="Theorems (Props/C17.lean) about the caller/watcher transition system of one context-aware operation for every slice length, every amount of data, and EVERY schedule of caller grants, watcher grants (including Go's free choice between two ready select cases), a cancellation at any instant and data arriving at any instant: no_leftover_deadline (once the operation has returned the wrapped connection has no forced deadline and the watcher is gone), result_is_what_moved (reported count = bytes that left the wrapped connection, so a cancelled operation reporting zero transferred none and transferred bytes are reported even if the context fired; context error only if cancelled and nothing moved; the forced timeout never leaks; with a live context the result is data and no error), bytes_conserved (held + transferred = initial + arrived, at every instant), cancelled_returns (no state without runnable goroutine other than 'returned' or 'blocked in the wrapped call with a live context and nothing to transfer': nobody is left in wg.Wait, the select or <-done), cancelled_error, next_starts_clean, session_conserves and session_live_ops_unaffected (any sequence of operations with any cancellations: bytes reported in total = bytes offered - bytes still held; an operation with a live context is never timed out by an earlier one). Tie: netctx/conn.go, netctx/packetconn.go and connctx/connctx.go get yield points by the AST pass (also inside the watcher's go func); schedules run on the real wrappers over a scripted wrapped connection; positions of both goroutines, deadline, bytes and result are compared with the model after every grant.", level_note="Trusted: Lean kernel + standard axioms; the wrapped connection is the scripted one of harness/shim/ctxh (its blocking call returns when it can transfer or when its deadline is in the past; SetRead/WriteDeadline never fail), so errors of SetDeadline on the wrapped connection (errSetDeadline paths) and Close racing with an operation are not covered; the per-direction mutex is modelled as 'operations of one direction are consecutive'; a real pipe at both ends is not in the loop; promptness means 'returns once both goroutines have been scheduled', wall-clock latency is not modelled.",
+    trusted=LEAN_TB + ["hand-written transition system Model/Ctx.lean tied to netctx/conn.go, netctx/packetconn.go and connctx/connctx.go by controlled-schedule runs compared after every grant",
+                       "the scripted wrapped connection harness/shim/ctxh (deadline-aware blocking call, byte stream with position-dependent content)", "vrewrite, cosched"],
+    assumptions=["SetReadDeadline/SetWriteDeadline of the wrapped connection do not fail", "operations of one direction are consecutive (the wrapper's mutex); Close is not interleaved"])
 
 ALL = SEQ
